@@ -21,6 +21,7 @@ fn main() {
         "linescan" => linescan(&args[2..]),
         "newline" => newline(&args[2..]),
         "filelines" => filelines(&args[2..]),
+        "versionsort" => versionsort(),
         _ => {
             eprintln!("usage: rfv-unit <makediff|makediff-pairs> ...");
             std::process::exit(2);
@@ -577,4 +578,28 @@ fn filelines(args: &[String]) {
         )
         .unwrap();
     }
+}
+
+
+// ---------------------------------------------------------------------------
+// C11: table of the real version_sort over names read from stdin (JSON array).
+// ---------------------------------------------------------------------------
+fn versionsort() {
+    let mut input = String::new();
+    std::io::Read::read_to_string(&mut std::io::stdin(), &mut input).unwrap();
+    let names: Vec<String> = serde_json::from_str(&input).unwrap();
+    let table: Vec<Vec<&str>> = names
+        .iter()
+        .map(|a| {
+            names
+                .iter()
+                .map(|b| match verif::version_sort(a, b) {
+                    std::cmp::Ordering::Less => "L",
+                    std::cmp::Ordering::Equal => "E",
+                    std::cmp::Ordering::Greater => "G",
+                })
+                .collect()
+        })
+        .collect();
+    println!("{}", json!({"kind": "cmp", "table": table}));
 }
